@@ -38,6 +38,9 @@ func (p *c01) scenario(c fw.Case) (*gen.Scenario, *fw.Rand) {
 		return findDirected(engineDirected(), c.Directed), r
 	}
 	o := gen.ScenOpts{LoopHeavy: r.Chance(0.6), SmallOptions: r.Chance(0.25), MaxNodes: r.Range(2, 8), ContactChanges: r.Chance(0.2), InvalidP: 0.03}
+	if r.Chance(0.04) {
+		return gen.LoopScen(r), r
+	}
 	return gen.Scen(r, o), r
 }
 
